@@ -52,6 +52,15 @@ def event : Op
     match regimenToEvent dose start dur period num with
     | .error e => some [errVal (errName e)]
     | .ok e => some [.str "ok", eventVal e]
+  | [.str "reduced", dv, sv, duv, pv, nv] => do
+    let dose ← Val.rat? dv
+    let start ← Val.rat? sv
+    let dur ← Val.rat? duv
+    let period ← Val.opt? Val.rat? pv
+    let num ← Val.opt? Val.int? nv
+    match reducedRegimenToEvent dose start dur period num with
+    | .error e => some [errVal (errName e)]
+    | .ok e => some [.str "ok", eventVal e]
   | _ => none
 
 /-- `C10.pace event times` → pace, delivered, nStarted at every time -/
